@@ -165,12 +165,19 @@ theorem insertTy_ok {v v' : Var} {t : VarTy} {n : Str} {x : Val} (h : v.insertTy
 /-- a successful `store` found room in the pool, found the type `t` of the name, and wrote (or,
     for a default value, removed) a value `y` of that type under exactly that name -/
 theorem store_ok {v v' : Var} {n : Str} {x : Val} (h : v.store n x = .ok v') :
-    v.vars.length ≤ 65535 ∧ ∃ t y, v.tyOf n = .ok (some t) ∧ y.ty = t.toTy ∧ v' = v.updateVal n y := by
+    (v.vars.length ≤ 65535 ∨ AL.contains n v.vars = true) ∧
+      ∃ t y, v.tyOf n = .ok (some t) ∧ y.ty = t.toTy ∧ v' = v.updateVal n y := by
   unfold store at h
   split at h
   · cases h
   · rename_i hlen
-    refine ⟨by omega, ?_⟩
+    refine ⟨?_, ?_⟩
+    · by_cases hl : v.vars.length ≤ 65535
+      · exact .inl hl
+      · refine .inr ?_
+        by_cases hc : AL.contains n v.vars = true
+        · exact hc
+        · exact absurd ⟨by omega, hc⟩ hlen
     obtain ⟨ot, hot, h2⟩ := bind_ok h
     cases ot with
     | none => cases h2
@@ -214,6 +221,14 @@ theorem nodup_updateVal {v : Var} (hv : AL.NoDup v.vars) (n : Str) (y : Val) :
   · exact AL.noDup_erase n hv
   · exact AL.noDup_set n y hv
 
+/-- writing to a name that is in the pool never grows it -/
+theorem length_updateVal_le_of_contains (v : Var) {n : Str} (y : Val) (hc : AL.contains n v.vars = true) :
+    (v.updateVal n y).vars.length ≤ v.vars.length := by
+  unfold updateVal
+  split
+  · exact AL.length_erase_le n v.vars
+  · exact AL.length_set_le_of_contains y hc
+
 theorem length_updateVal_le (v : Var) (n : Str) (y : Val) :
     (v.updateVal n y).vars.length ≤ v.vars.length + 1 := by
   unfold updateVal
@@ -227,15 +242,32 @@ theorem wf_store {v v' : Var} (hv : WF v) {n : Str} {x : Val} (h : v.store n x =
   obtain ⟨hlen, t, y, ht, hy, rfl⟩ := store_ok h
   refine ⟨typed_updateVal hv.typed ht hy, nodup_updateVal hv.nodupVars n y, ?_, ?_⟩
   · rw [updateVal_dims]; exact hv.nodupDims
-  · have := length_updateVal_le v n y; omega
+  · rcases hlen with hlen | hc
+    · have := length_updateVal_le v n y; omega
+    · have := length_updateVal_le_of_contains v y hc
+      have := hv.pool; omega
 
 example : ∃ v', Var.new.store "A%".toList (.int 3) = .ok v' ∧ WF v' :=
   ⟨Var.new.updateVal "A%".toList (.int 3), rfl, wf_store wf_new (n := "A%".toList) (x := .int 3) rfl⟩
 
-/-- pool bound: a full pool rejects every store with OUT OF MEMORY, before anything else -/
-theorem store_full (v : Var) (n : Str) (x : Val) (h : 65535 < v.vars.length) :
+/-- pool bound: a full pool rejects every store to a name it does not hold with OUT OF MEMORY, before
+    anything else -/
+theorem store_full (v : Var) (n : Str) (x : Val) (h : 65535 < v.vars.length)
+    (hn : AL.contains n v.vars = false) :
     v.store n x = err Code.outOfMemory := by
-  unfold store; rw [if_pos h]
+  unfold store; rw [if_pos ⟨h, by simp [hn]⟩]
+
+/-- … and only those (D23): a store to a name the pool holds is never refused for lack of room, whatever
+    the size of the pool -/
+theorem store_existing_not_full (v : Var) (n : Str) (x : Val) (hc : AL.contains n v.vars = true) :
+    v.store n x = (match v.tyOf n with
+                    | .ok (some t) => v.insertTy t n x
+                    | .ok none => err Code.internalError
+                    | .error e => .error e) := by
+  unfold store; rw [if_neg (by simp [hc])]
+  cases v.tyOf n with
+  | error e => rfl
+  | ok o => cases o <;> rfl
 
 example : 65535 < (List.replicate 65536 ("A".toList, Val.int 1)).length := by
   rw [List.length_replicate]; omega
@@ -256,10 +288,13 @@ theorem default_store_frees {v v' : Var} {n : Str} {x : Val} (h : v.store n x = 
 
 /-- the directly usable form: storing a default value of the variable's own type -/
 theorem default_store_frees' (v : Var) (n : Str) (t : VarTy) (x : Val)
-    (hlen : v.vars.length ≤ 65535) (ht : v.tyOf n = .ok (some t)) (hx : x.ty = t.toTy)
-    (hd : isDefault x = true) :
+    (hlen : v.vars.length ≤ 65535 ∨ AL.contains n v.vars = true) (ht : v.tyOf n = .ok (some t))
+    (hx : x.ty = t.toTy) (hd : isDefault x = true) :
     v.store n x = .ok { v with vars := AL.erase n v.vars } := by
-  have hlen' : ¬ v.vars.length > 65535 := by omega
+  have hlen' : ¬ (v.vars.length > 65535 ∧ ¬ AL.contains n v.vars = true) := by
+    rcases hlen with h | h
+    · intro ⟨h1, _⟩; omega
+    · intro ⟨_, h2⟩; exact h2 h
   have hs : ∀ s : Str, isDefault (.str s) = true → ¬ s.length > 255 := by
     intro s hs
     have : s = [] := by simpa [isDefault] using hs
